@@ -175,7 +175,8 @@ OFmtTexts == { <<PCT, DOT, D6, c_g>>, <<PCT, DOT, D2, c_f>>, <<PCT, DOT, D3, c_e
                <<PCT, c_g>>, <<PCT, C_G>>,                       \* no precision: C's default is 6
                <<PCT, D8, DOT, D1, c_f>>,                         \* blanks in front (quoted in CSV output)
                <<PCT, DOT, D2, c_f, COMMA>>,                      \* text after the directive (quoted in CSV, not in TSV)
-               <<PCT, PLUS, DOT, D1, c_e>>, <<c_x, PCT, MINUS, D7, DOT, D2, c_f, BAR>>, <<PCT, DOT, D0, c_f>> }
+               <<PCT, PLUS, DOT, D1, c_e>>, <<c_x, PCT, MINUS, D7, DOT, D2, c_f, BAR>>, <<PCT, DOT, D0, c_f>>,
+               <<PCT, D1, D0, c_g>>, <<PCT, MINUS, D1, D2, C_G, BAR>>, <<PCT, PLUS, c_g>> }   \* a width or a flag but no precision: still C's default 6
 CFmtTexts == { <<PCT, DOT, D6, c_g>>, <<PCT, DOT, D3, c_e>>, <<PCT, DOT, D1, c_f>> }
 PrintNums == { Zero, NatNum(1), NatNum(0 - 42), NatNum(100000), NatNum(1000000), NatNum(2147483647), Dec(FALSE, P53, 0), Dec(TRUE, P63, 0),
                Dec(FALSE, <<1>>, 18), Dec(FALSE, <<5>>, 0 - 1), Dec(TRUE, <<1, 2, 5>>, 0 - 3), Dec(FALSE, <<1, 2, 3, 4, 5, 6, 7, 5>>, 0 - 1),
